@@ -657,7 +657,10 @@ def make_test(n, desc, hooks, variant):
 
 def run_caps(job, out):
     res = []
+    original = swap_logger(MemoryLogger())      # the process-wide default logger, through the public API
+    swap_logger(original)
     for item in job.get("caps", []):
+        swap_logger(original)                   # runs are independent: a run that leaks its logger does not taint the next
         run, init, variant = item["run"], item["init"], item["variant"]
         hooks = CapHooks(init)
         ns = {}
